@@ -193,6 +193,20 @@ PROPS = {
   'sim': ['simsock', 'fakecurl', 'simclock'],
   'essential_classes': ['add:accepted', 'add:cache-full', 'returned:response', 'returned:error', 'op:stale', 'op:early-reply', 'early-reply-queued', 'stale-reply-queued', 'op:close', 'op:reset', 'op:refuse-next', 'op:advance', 'op:block-send', 'closed-inside-a-pdu', 'push-config-delivered', 'cache-size:5+'],
   'assumptions': ['simulated socket semantics as documented in sim/simnet.hpp'],
+ }, 'C14': {
+  'technique': 'metamorphic property testing (rapidcheck + exhaustive split points): chunked vs unchunked delivery over simulated sockets, request-stream integrity, faults at generated byte offsets',
+  'level_text': 'Sequences of 1..8 authenticated replies (valid, error status, bad MAC, 2-byte elements; padded up to 65539 bytes) are delivered to the asynchronous TCP client in generated recv chunk sequences (1-byte, multi-hundred-byte and 131078-byte reads with would-block '
+                'results) and with generated partial-send / would-block patterns; the handles completed must equal those of the unchunked delivery of the same stream (result independent of chunking), and the client->server bytes on every connection must decode into whole authentic requests in submission order. '
+                'Close / reset at every generated byte offset: completely delivered replies complete, cut ones never do, every affected request ends, and a later request travels whole on a fresh connection and completes. The blocking client is checked with chunked reads, EINTR injections, partial sends and truncated streams. '
+                'Every split point of six short streams is enumerated.',
+  'level_note': 'Trusted: sim/simsock.cpp (POSIX non-blocking semantics as documented), ref/pdu.cpp. ASan guards the reassembly buffers.',
+  'rule': 'rapidcheck choice strings -> (number and sizes / kinds of replies, recv chunk plan, send plan | fault kind and offset + late request | blocking client plan); exhaustive: each split point (a, or a+b) of 6 streams. '
+          'Non-trivial = >= 3 chunks, a split inside a TLV header, or a fault strictly inside a PDU; distinct = distinct (mode, sizes, plan summary).',
+  'quick': {'cases': 3200, 'max_size': 300, 'exhaustive': True, 'wall_s': 1200},
+  'thorough': {'cases': 64000, 'max_size': 400, 'exhaustive': True, 'wall_s': 3400},
+  'sim': ['simsock', 'fakecurl', 'simclock'],
+  'essential_classes': ['mode:random-chunks', 'mode:close-at-offset', 'mode:reset-at-offset', 'mode:blocking-chunks', 'mode:blocking-truncated', 'mode:cut-inside-request-stream', 'eintr-injected', 'split-inside-header', 'request-on-fresh-connection', 'request-cut-short-by-connection-end', 'baseline-with-completed-responses'],
+  'assumptions': ['simulated socket semantics as documented in sim/simnet.hpp'],
  },
 }
 
